@@ -329,7 +329,15 @@ def record_traces(adapter, acfg, gen_op, n_traces, length, rng):
                 ret = adapter.apply(obj, o)
             except Exception as ex:
                 ret = "EXC:" + type(ex).__name__
-            tr.append({"o": o, "ret": ret, "st": adapter.project(obj)})
+            try:
+                st = adapter.project(obj)
+            except core.MachineryError:
+                raise
+            except Exception as ex:     # a projection assertion is a finding of its own: TLC rejects the event
+                st = {"projection-raised": type(ex).__name__ + ":" + str(ex)[:300]}
+                tr.append({"o": o, "ret": ret, "st": st})
+                break
+            tr.append({"o": o, "ret": ret, "st": st})
             if o.get("op") == "Destroy":
                 break
         traces.append(tr)
